@@ -164,6 +164,26 @@ func (h TXN) Generate(seed uint64, tier string) *core.Scenario {
 	}
 	b.Ops = append(b.Ops, TxnOp{S: 0, Kind: "read"})
 	b.Crash = h.Prop != "C22" && r.Chance(1, 3)
+	if h.Prop == "C23" && b.NSess >= 2 {
+		kr := core.NewRand(seed ^ 0x2323)
+		if kr.Chance(1, 3) {
+			// directed: an autocommit session opens an explicit transaction and ends it with CALL dolt_commit;
+			// what it writes afterwards is an autocommit statement again, which the others must see at once
+			sa := kr.Intn(b.NSess)
+			so := (sa + 1 + kr.Intn(b.NSess-1)) % b.NSess
+			b.Autocommit[sa] = true
+			seq := []TxnOp{
+				{S: sa, Kind: "begin"},
+				{S: sa, Kind: "insert", PK: kr.Intn(pkDom), A: kr.Intn(aDom), B: kr.Intn(3), C: kr.Intn(3)},
+				{S: sa, Kind: "dcommittxn"},
+				{S: sa, Kind: "update", PK: kr.Intn(pkDom), Col: "b", Val: kr.Intn(aDom)},
+				{S: sa, Kind: "insert", PK: kr.Intn(pkDom), A: kr.Intn(aDom), B: kr.Intn(3), C: kr.Intn(3)},
+				{S: so, Kind: "commit"}, {S: so, Kind: "read"},
+			}
+			at := kr.Intn(len(b.Ops) + 1)
+			b.Ops = append(b.Ops[:at], append(seq, b.Ops[at:]...)...)
+		}
+	}
 	raw, _ := json.Marshal(b)
 	return &core.Scenario{Property: h.Prop, Harness: h.Prop, Seed: seed, Tier: tier, Body: raw}
 }
